@@ -318,6 +318,7 @@ def source_changes():
 
 
 _E_ITEM = re.compile(r"E\([^ ]*\)")
+_E_PAYLOAD = re.compile(r"E\((hdrin|databetween):[^ ]*?\)(?=@| |$)")
 _ERR_TOK = re.compile(r"\berr:[a-z0-9]+")
 
 
@@ -333,6 +334,9 @@ def norm_out(case, out, pid=None):
     # quoted in errors shift"); C08's oracle reads the raw output.  Every other property is about something else - how many items, where the cursor stands, what round-trips, whether
     # anything panics - so its comparison with the model keeps the shape (an error item here, a section there) and drops the kind:
     # a tree that renames an error variant is then reported by C05, which cannot decide without the name, and by nobody else.
+    if out is not None and case.split(" ", 1)[0] in ("sections", "ops"):
+        # the record a header-in-section / data-between-sections error carries is nobody's subject (C05 names the kind only)
+        out = _E_PAYLOAD.sub(r"E(\1)", out)
     if pid not in ("C05", "C12") and out is not None and case.split(" ", 1)[0] in ("sections", "ops", "lines", "raw", "pline"):
         out = _ERR_TOK.sub("err:*", _E_ITEM.sub("E(*)", out))
     # C15: "a different contig or strand is an error", "constructing a pair from unequal lengths is refused" - which variant
